@@ -14,7 +14,10 @@ from pathlib import Path
 VERIF = Path(__file__).resolve().parent.parent
 REPO = Path(os.environ.get("PEGEN_REPO", "/repo"))
 COQ = VERIF / "coq"
-GEN = COQ / "gen"
+GEN_ROOT = COQ / "gen"
+# generated Coq files of THIS process (two checks running at the same time must not write the same files);
+# moved to coq/gen/<ID> when the check finishes, for inspection
+GEN = GEN_ROOT / f"run-{os.getpid()}"
 EVIDENCE = VERIF / "evidence"
 REPLAYS = VERIF / "replays"
 PY = "/venv/bin/python"
@@ -262,6 +265,15 @@ class Check:
     def finish(self) -> int:
         EVIDENCE.mkdir(exist_ok=True)
         REPLAYS.mkdir(exist_ok=True)
+        try:        # keep the generated files of the last run of each check under coq/gen/<ID>
+            import shutil
+            if GEN.is_dir():
+                for d in GEN.iterdir():
+                    shutil.rmtree(GEN_ROOT / d.name, ignore_errors=True)
+                    shutil.move(str(d), str(GEN_ROOT / d.name))
+                shutil.rmtree(GEN, ignore_errors=True)
+        except OSError:
+            pass
         if LOST_JOBS:
             # a process that runs the real code died or hung: nothing is known about those jobs, which is not "held"
             self.oblige(f"the runner processes ran every job ({len(LOST_JOBS)} lost)", False, json.dumps(LOST_JOBS[:3], default=str)[:3000])
